@@ -25,6 +25,13 @@ ReportedFieldsArePast(s) ==
   /\ s.method[2] <= s.pos /\ s.path[2] <= s.pos /\ s.reason[2] <= s.pos
   /\ \A i \in 1..Len(s.hdrs) : s.hdrs[i][2][2] <= s.pos /\ s.hdrs[i][1][2] < s.pos
 
+\* C18 (design level): a Complete result never leaves a start-line field to whatever an
+\* earlier call stored in the value: every field has been assigned by this run
+CompleteDetermined(s) ==
+  s.st = "C" =>
+    /\ s.kind = "req" => s.method # NoSpan /\ s.path # NoSpan /\ s.version # NoVal
+    /\ s.kind = "resp" => s.version # NoVal /\ s.code # NoVal /\ s.hasreason
+
 \* ------------------------------------------------------------------ C03
 \* 1-based position just past the start line: after leading empty lines, the first LF
 RECURSIVE AfterLead(_, _)
